@@ -59,3 +59,10 @@ reg("C10", "model_checking",
     "several EDBs per generated program with single/multiple keys, recursive and non-recursive - is judged by TLC against the three clauses of the property; "
     "strata without choice relations must be reproduced exactly from that database.",
     EVAL_NOTE + " 'Derivable' means head instance of a clause over the final database as computed by Datalog.tla's ClauseTP.", "DESIGN.md 9 C10")
+reg("C11", "model_checking",
+    "TLC computes the model without subsumptive clauses (spec/Datalog.tla) and evaluates the result predicate SubsumeOK (spec/Subsume.tla) on the final database of every real run",
+    "For generated program families (bounded shortest path with one or two recursive rules, max/min per key, pareto front with two subsumptive clauses, lexicographic minimum, "
+    "non-monotone cost, downstream negation/aggregate over the subsumed relation) and every sampled EDB, TLC judges each real final database (interpreter and compiled, several -j): "
+    "no dominated tuple present, only tuples derivable without subsumption, equal to the minimal tuples for the monotone-cost families, strata above recomputed exactly; "
+    "the dominance condition is checked to be a strict partial order on the unsubsumed relation.",
+    EVAL_NOTE + " Hand-written program families with seeded parameters; one subsumptive relation per program.", "DESIGN.md 9 C11")
